@@ -7,8 +7,7 @@
   axes of size one come from the `or (1, )` of tensor.py:128, see Model/Tensor.lean) and,
   reshaped to a tensor `F dom → F scan` (`accOf`), it IS the composite of the layers so far.
 -/
-import Proofs.TensorSnake
-import Proofs.WFOps
+import Proofs.TensorCups
 
 namespace DV
 namespace TFunctor
@@ -601,46 +600,22 @@ theorem boxOK_swap (F : TFunctor R) (b : Box) (hk : b.kind = .swap) (hsw : SwapO
   have := swapT_type F b (hsw hk)
   exact ⟨swap_wf _ _, this.1, this.2⟩
 
-/-! ### cups and caps over an object sent to at most one wire -/
+/-! ### cups and caps -/
 
-/-- A genuine `Cup(x, y)`: two wires with the same name (adjoint objects), empty codomain. -/
+/-- A genuine `Cup(x, y)`: two wires, empty codomain (rigid.py:325-351). -/
 def CupOK (b : Box) : Prop :=
-  b.kind = .cup → ∃ x y : Ob, b.dom = [x, y] ∧ x.name = y.name ∧ b.cod = []
+  b.kind = .cup → ∃ x y : Ob, b.dom = [x, y] ∧ b.cod = []
 
-/-- A genuine `Cap(x, y)`. -/
+/-- A genuine `Cap(x, y)` (rigid.py:354-384). -/
 def CapOK (b : Box) : Prop :=
-  b.kind = .cap → ∃ x y : Ob, b.cod = [x, y] ∧ x.name = y.name ∧ b.dom = []
+  b.kind = .cap → ∃ x y : Ob, b.cod = [x, y] ∧ b.dom = []
 
-/-- Every object is sent to at most one wire (an `int`, or a `Dim` of length ≤ 1). -/
-def Atomic (F : TFunctor R) : Prop := ∀ o : Ob, (Dim.mk (F.ob o)).length ≤ 1
-
-theorem cups_nil : Tensor.cups (R := R) [] [] = .ok (Tensor.id []) := by
-  simp [Tensor.cups, Tensor.cupsLoop]
-
-theorem ty_single (F : TFunctor R) (x : Ob) : F.ty [x] = Dim.mk (F.ob { x with z := 0 }) := by
-  simp [TFunctor.ty]
-
-theorem ty_pair_same (F : TFunctor R) {x y : Ob} (h : x.name = y.name) : F.ty [x] = F.ty [y] := by
-  rw [ty_single, ty_single]
-  have : ({ x with z := 0 } : Ob) = { y with z := 0 } := by
-    cases x; cases y; simp_all
-  rw [this]
-
-/-- The cup over one object: well-formed, of type `F x ⊗ F y → 1`. -/
-theorem cups_atomic (F : TFunctor R) (hF : Atomic F) {x y : Ob} (h : x.name = y.name) :
-    ∃ t, Tensor.cups (R := R) (F.ty [x]) (F.ty [y]) = .ok t ∧ t.WF ∧
-      t.dom = F.ty [x] ++ F.ty [y] ∧ t.cod = [] := by
-  rw [← ty_pair_same F h]
-  have hlen := hF { x with z := 0 }
-  rw [← ty_single] at hlen
-  match hty : F.ty [x], hlen with
-  | [], _ => exact ⟨_, cups_nil, id_wf _, rfl, rfl⟩
-  | [n], _ => exact ⟨_, cups_single n, cupFactory_wf [n], rfl, rfl⟩
-  | _ :: _ :: _, h => simp at h
-
-theorem boxOK_cup (F : TFunctor R) (hF : Atomic F) (b : Box) (hk : b.kind = .cup)
-    (hb : CupOK b) : BoxOK F b := by
-  obtain ⟨x, y, hd, hn, hc⟩ := hb hk
+/-- `F(Cup(x, y)) = Tensor.cups(F x, F y)` has the right type whenever it is defined (it is an
+    AxiomError when `F x`, `F y` are not adjoint dimension tuples, e.g. a non-palindromic
+    multi-wire `Dim`: winding numbers are erased, tensor.py:343-344). -/
+theorem boxOK_cup (F : TFunctor R) (b : Box) (hk : b.kind = .cup) (hb : CupOK b) :
+    BoxOK F b := by
+  obtain ⟨x, y, hd, hc⟩ := hb hk
   intro t ht
   unfold TFunctor.box at ht
   rw [hk] at ht
@@ -648,16 +623,14 @@ theorem boxOK_cup (F : TFunctor R) (hF : Atomic F) (b : Box) (hk : b.kind = .cup
   have h1 : pySlice b.dom none (some 1) = [x] := by rw [hd]; rfl
   have h2 : pySlice b.dom (some 1) none = [y] := by rw [hd]; rfl
   rw [h1, h2] at ht
-  obtain ⟨t', ht', hw, hdom, hcod⟩ := cups_atomic F hF hn
-  rw [ht'] at ht
-  cases ht
+  obtain ⟨hw, hdom, hcod⟩ := cups_ok ht
   refine ⟨hw, ?_, ?_⟩
   · rw [hdom, hd, ← ty_append]; rfl
   · rw [hcod, hc]; rfl
 
-theorem boxOK_cap (F : TFunctor R) (hF : Atomic F) (b : Box) (hk : b.kind = .cap)
-    (hb : CapOK b) : BoxOK F b := by
-  obtain ⟨x, y, hc, hn, hd⟩ := hb hk
+theorem boxOK_cap (F : TFunctor R) (b : Box) (hk : b.kind = .cap) (hb : CapOK b) :
+    BoxOK F b := by
+  obtain ⟨x, y, hc, hd⟩ := hb hk
   intro t ht
   unfold TFunctor.box at ht
   rw [hk] at ht
@@ -665,24 +638,22 @@ theorem boxOK_cap (F : TFunctor R) (hF : Atomic F) (b : Box) (hk : b.kind = .cap
   have h1 : pySlice b.cod none (some 1) = [x] := by rw [hc]; rfl
   have h2 : pySlice b.cod (some 1) none = [y] := by rw [hc]; rfl
   rw [h1, h2] at ht
-  obtain ⟨t', ht', hw, hdom, hcod⟩ := cups_atomic F hF hn
-  unfold Tensor.caps at ht
-  rw [ht'] at ht
-  cases ht
-  refine ⟨dagger_wf _ hw, ?_, ?_⟩
-  · rw [dagger_dom, hcod, hd]; rfl
-  · rw [dagger_cod, hdom, hc, ← ty_append]; rfl
+  obtain ⟨hw, hdom, hcod⟩ := caps_ok ht
+  refine ⟨hw, ?_, ?_⟩
+  · rw [hdom, hd]; rfl
+  · rw [hcod, hc, ← ty_append]; rfl
 
-/-- All boxes of a diagram are genuine (what discopy's classes guarantee). -/
+/-- All special boxes are genuine (what discopy's classes `Swap`, `Cup`, `Cap` guarantee). -/
 def Genuine (b : Box) : Prop := SwapOK b ∧ CupOK b ∧ CapOK b
 
-theorem boxOK_of_atomic (F : TFunctor R) (hF : Atomic F) (b : Box) (hb : Genuine b) :
-    BoxOK F b := by
+/-- Every genuine box is sent to a well-formed tensor of the right type (when `F(box)` is
+    defined at all). -/
+theorem boxOK_of_genuine (F : TFunctor R) (b : Box) (hb : Genuine b) : BoxOK F b := by
   cases hk : b.kind with
   | gen => exact boxOK_gen F b hk
   | swap => exact boxOK_swap F b hk hb.1
-  | cup => exact boxOK_cup F hF b hk hb.2.1
-  | cap => exact boxOK_cap F hF b hk hb.2.2
+  | cup => exact boxOK_cup F b hk hb.2.1
+  | cap => exact boxOK_cap F b hk hb.2.2
 
 /-! ### a box seen as a one-box diagram -/
 
